@@ -3,14 +3,14 @@ CONSTANTS
   Vals = {0, 16, 48}
   Ramps = {0, 16, 24}
   Jitters = {0}
-  Shapes = {"ramp", "speed", "none"}
-  StartHv = {16, 48}
+  Shapes = {"ramp", "none"}
+  StartHv = {16}
   StartTarget = {16, 48}
   Depth = 7
   MaxTargets = 2
   MaxStops = 1
   MaxRamps = 0
-  MaxReads = 1
+  MaxReads = 0
   MaxX = 0
 CONSTRAINT Bound
 ACTION_CONSTRAINT Canon
